@@ -202,6 +202,8 @@ class Matrix:
         if rhs.shape[0] != self.shape[0]:
             raise MatrixError('right-hand size shape does not match matrix shape')
         rhsnorm = numpy.linalg.norm(rhs, axis=0).max()
+        if not numpy.isfinite(rhsnorm):
+            raise MatrixError('non-finite right hand side')
         atol = max(atol, rtol * rhsnorm)
         if rhsnorm <= atol:
             if rhsnorm: # rhs != 0; solution is inexact
@@ -219,7 +221,7 @@ class Matrix:
             raise MatrixError('solver returned non-finite left hand side')
         resnorm = numpy.linalg.norm(rhs - self @ lhs, axis=0).max()
         treelog.debug('solver returned with residual {:.0e}'.format(resnorm))
-        if resnorm > atol > 0:
+        if atol > 0 and not resnorm <= atol:
             raise ToleranceNotReached(lhs)
         return lhs
 
